@@ -8,8 +8,8 @@
    - the stable sort by position;
    - the indent pass (startIndents / endIndents / comment indents).
    The output is the sorted fragment list Model/Link.v starts from.  Executable definitions only.
-   Not modelled: //line directives (Fset.Position is taken unadjusted), files of a FileSet other
-   than the one being decorated. *)
+   Lines and columns are the physical ones (FileSet.PositionFor(pos, false), fix 8907ee9: //line
+   directives play no role).  Not modelled: files of a FileSet other than the one being decorated. *)
 From Coq Require Import List String ZArith NArith Bool.
 Import ListNotations.
 From DV Require Import Model.Tree Model.Tables Model.FragSkel Model.Link.
